@@ -135,6 +135,8 @@ func c04(c *Ctx) {
 	rd.sticky("C04.sticky")
 	rd.close1002("C04.close-1002")
 	flateWrapperRule(c, "C04.error-reaches-reader") // ... and keeps reporting it: the inflater is given up only at EOF
+	r.Rule("C04.close-1002-sendable", "an earlier control write that merely timed out waiting for the connection does not poison it, so the 1002 close frame of a later violation can still be sent (same rule as C11.timeout-paths)")
+	c.borrow(c11, map[string]string{"C11.timeout-paths": "C04.close-1002-sendable"})
 	r.Rule("C04.control-bodies-readable", "a control frame body of any legal size can be read, so that its validation (close code, UTF-8) and the 1002 reply happen instead of a buffer error (same rule as C08.read-buffer)")
 	c08readBufferAs(c, rd, "C04.control-bodies-readable")
 	// the value whose top bit is tested is the full 64-bit length the peer sent
